@@ -55,6 +55,8 @@ type Program struct {
 	Abstracted   map[string]bool
 	footprints   map[*FuncInfo]*footprintT
 	MutableGlobals map[*types.Var]bool
+	WrittenMaps map[*types.Var]bool
+	AddrTakenGlobals map[*types.Var]bool
 	GlobalInit     map[*types.Var]ast.Expr
 	GlobalInfo     map[*types.Var]*packages.Package
 }
@@ -84,6 +86,7 @@ type VC struct {
 	topPanics []*State
 	analyzed  map[ast.Node]bool
 	noKF      bool
+	gaddrSeen map[string]bool
 	usedSites map[string]bool
 	heapGoTypes map[string]types.Type
 	mapValArr   map[string]bool
@@ -148,6 +151,13 @@ func (vc *VC) oblige(s *State, kind, site, desc string, pos token.Pos, goal *Ter
 	if vc.quiet {
 		s.assume(goal)
 		return
+	}
+	if goal.Op == "=>" && goal.Args[1].Op == "and" && (kind == "ensures" || kind == "invariant-init" || kind == "invariant-step") {
+		parts := make([]*Term, len(goal.Args[1].Args))
+		for i, g := range goal.Args[1].Args {
+			parts[i] = Implies(goal.Args[0], g)
+		}
+		goal = And(parts...)
 	}
 	if goal.Op == "and" && (kind == "ensures" || kind == "invariant-init" || kind == "invariant-step" || kind == "call-requires") {
 		// one obligation per conjunct: smaller queries, precise diagnostics
